@@ -634,8 +634,49 @@ def check_grids(ctx, cuqi, rng, ncases):
 
 
 # ----------------------------------------------------------------------------------------------- D. observe (time dependent)
+UNSORTED_KINDS = ["subset-shuffled", "subset-decreasing", "subset-repeats", "subset-repeats-sorted", "mixed-unsorted", "mixed-repeats"]
+
+
+def unsorted_obs_grid(rng, gs, kind=None):
+    """observation grids given as a LIST: arbitrary order, repeated nodes, on-node and off-node points mixed.
+    Demanded: output[i] is the value at grid_obs[i] (interp1d accepts such points; RectBivariateSpline refuses
+    decreasing evaluation grids and accepts sorted repeats)."""
+    N = len(gs)
+    kind = kind or rng.choice(UNSORTED_KINDS)
+    def offnode():
+        x = dy(rng, gs[0], gs[-1], 8)
+        return x if x not in set(gs.tolist()) else float((gs[0] + gs[1]) / 2)
+    if kind == "subset-shuffled":
+        idx = rng.sample(range(N), rng.randint(2, N))
+        if idx == sorted(idx):
+            idx = idx[::-1]
+        pts = [float(gs[i]) for i in idx]
+    elif kind == "subset-decreasing":
+        idx = sorted(rng.sample(range(N), rng.randint(2, N)), reverse=True)
+        pts = [float(gs[i]) for i in idx]
+    elif kind in ("subset-repeats", "subset-repeats-sorted"):
+        idx = [rng.randrange(N) for _ in range(rng.randint(2, N + 1))]
+        idx.append(idx[0])
+        rng.shuffle(idx)
+        if kind == "subset-repeats-sorted":
+            idx = sorted(idx)
+        elif idx == sorted(idx):
+            idx = idx[::-1]
+        pts = [float(gs[i]) for i in idx]
+    else:
+        pts = [float(gs[rng.randrange(N)]) for _ in range(rng.randint(1, 3))] + [offnode() for _ in range(rng.randint(1, 3))]
+        if kind == "mixed-repeats":
+            pts += [pts[0], pts[-1]]
+        rng.shuffle(pts)
+        if pts == sorted(pts):
+            pts = pts[::-1]
+    return np.array(pts, dtype=float), kind
+
+
 def gen_obs_grid(rng, gs, allow_none=True):
     """(grid_obs argument, class label)"""
+    if len(gs) >= 3 and rng.random() < 0.22:
+        return unsorted_obs_grid(rng, gs)
     r = rng.random()
     N = len(gs)
     if r < 0.18 and allow_none:
@@ -692,9 +733,19 @@ def gen_tobs(rng, ts):
         v = sorted(set(dy(rng, ts[0], ts[-1], 16) for _ in range(k)))
         v = [x for x in v if x not in set(ts.tolist())] or [(ts[0] + ts[1]) / 2 if nt > 1 else ts[0] + 0.5]
         return np.array(v), "v:" + qv(v), "off-step"
-    k = rng.randint(1, 3)
-    v = sorted(set([dy(rng, ts[0], ts[-1], 16) for _ in range(k)] + [float(rng.choice(ts.tolist()))]))
-    lab = "mixed-step"
+    if r < 0.93 or nt < 2:
+        k = rng.randint(1, 3)
+        v = sorted(set([dy(rng, ts[0], ts[-1], 16) for _ in range(k)] + [float(rng.choice(ts.tolist()))]))
+        lab = "mixed-step"
+        return np.array(v), "v:" + qv(v), lab
+    # time lists with repeats (accepted by the spline when sorted) or in arbitrary order (the spline refuses them)
+    idx = [rng.randrange(nt - 1) for _ in range(rng.randint(1, 3))]
+    idx.append(idx[0])
+    if r < 0.965:
+        idx = sorted(idx); lab = "on-step-repeats-sorted"
+    else:
+        idx = sorted(set(idx + [nt - 1]), reverse=True); lab = "on-step-decreasing"
+    v = [float(ts[i]) for i in idx]
     return np.array(v), "v:" + qv(v), lab
 
 
@@ -756,6 +807,13 @@ def check_observe_time(ctx, cuqi, rng, ncases, bump):
                 assert np.allclose(ts[-1:], [tnear]) and tnear != ts[-1]
                 go, gclass = (None, "none") if rng.random() < 0.5 else (gs.copy(), "equal-copy")
                 tobs, ttok, tclass = np.array([tnear]), "v:" + qv([tnear]), "near-final-" + nm
+        c0 = 3 + 2 * len(TOL_GRIDS)
+        if c0 <= c < c0 + 4 and N >= 4:      # always present: observation nodes as a list (sorted repeats are accepted by the spline, other orders refused)
+            go, gclass = unsorted_obs_grid(rng, gs, ["subset-repeats-sorted", "subset-repeats-sorted", "subset-decreasing", "subset-shuffled"][c - c0])
+            grid_sol_none = False
+            if c - c0 < 2:
+                nt = max(nt, 4); ts = gen_times(rng, nt, "nonuniform")
+                tobs, ttok, tclass = "final", "str:final", "final"
         if tclass == "all-final-len0" and (grid_sol_none or gclass not in ("none", "equal-copy")):
             # an array with a zero-length time axis has no faithful list representation on the interpolation branch
             tobs, ttok, tclass = np.array([float(ts[-1])]), "v:" + qv([float(ts[-1])]), "explicit-final"
@@ -898,7 +956,13 @@ def check_observe_steady(ctx, cuqi, rng, ncases, bump):
             N = max(N, 4)
             gs, go, nm, _, _ = tolerance_pair(rng, N, TOL_GRIDS[c] if c < len(TOL_GRIDS) else None)
             gclass = "tolerance-shift-" + nm
+        if len(TOL_GRIDS) <= c < len(TOL_GRIDS) + len(UNSORTED_KINDS):     # always present: observation points in the order given, repeats repeated
+            N = max(N, 4)
+            gs = np.arange(N, dtype=float) * 0.5
+            go, gclass = unsorted_obs_grid(rng, gs, UNSORTED_KINDS[c - len(TOL_GRIDS)])
         u = dyv(rng, N, -4, 4, 4)
+        if len(set(u.tolist())) < N:
+            u = u + 0.125 * np.arange(N)          # distinct nodal values: a permuted output is visible
         gops = [("init", gs, go)]
         if rng.random() < 0.3 and not tolcase:     # re-assign grids after construction
             g2, _ = gen_obs_grid(rng, gs, allow_none=False)
@@ -1469,7 +1533,7 @@ def check_testproblems(ctx, cuqi, rng, thorough):
     try:
         configs = []
         for dim in ([5, 9] if not thorough else [5, 9, 17, 12]):
-            for obsmap in (None, "sub", "off"):
+            for obsmap in (None, "sub", "off", "shuf"):
                 configs.append(("Poisson1D", dim, obsmap))
         for dim in ([4, 7] if not thorough else [4, 7, 15, 10]):
             for obsmap in (None, "sub", "off"):
@@ -1481,6 +1545,8 @@ def check_testproblems(ctx, cuqi, rng, thorough):
                 gmap = lambda g: g[1::2] if len(g) > 2 else g[:1]
             elif obsmap == "off":
                 gmap = lambda g: (g[:-1] + g[1:]) / 2
+            elif obsmap == "shuf":      # nodes in arbitrary order, one repeated, one off-node point in between
+                gmap = lambda g: np.array([g[3], g[0], (g[1] + g[2]) / 2, g[2], g[3]])
             else:
                 gmap = None
             desc = {"problem": name, "dim": dim, "observation_grid_map": obsmap}
@@ -1513,7 +1579,10 @@ def check_testproblems(ctx, cuqi, rng, thorough):
             # the observation is the final solution on the observation grid (exact on coinciding nodes)
             fin = sol if sol.ndim == 1 else sol[:, -1]
             gsl = gs.tolist()
-            for a, v in enumerate(go.tolist()):
+            if np.asarray(y).shape != (len(go),):
+                ctx.fail(key, desc, f"one value per observation point: shape ({len(go)},)", f"shape {np.asarray(y).shape}",
+                         "test problem's observation does not have one entry per observation point")
+            for a, v in enumerate(go.tolist() if np.asarray(y).shape == (len(go),) else []):
                 if v in gsl and not close(float(np.asarray(y).ravel()[a]), float(fin[gsl.index(v)]), 1e-9):
                     ctx.fail(key, desc, f"y[{a}] = solution at node {v} = {fin[gsl.index(v)]}", float(np.asarray(y).ravel()[a]),
                              "test problem's observation at a coinciding node is not the solution value")
